@@ -40,7 +40,22 @@ inline int evalFrame(Ctx &cx, int op, bool fin, bool masked, int keyIdx, size_t 
     memcpy(f.maskKey, KEYS[keyIdx], 4);
     Bytes pl = framePayload(len, pat);
     f.payload.assign(pl.begin(), pl.end());
-    std::vector<uint8_t> wire = f.serialize(masked);
+    std::vector<uint8_t> wire;
+    try
+    {
+      wire = f.serialize(masked);
+    }
+    catch (const std::exception &)
+    {
+      // serialize() may refuse by contract what RFC 6455 forbids (fragmented / >125-byte control frames)
+      // and opcodes it does not know; anything else it must encode.
+      if (refusable || (op >= 3 && op <= 7) || op >= 11)
+      {
+        r.counters["frame_serialize_refused"]++;
+        return v;
+      }
+      throw;
+    }
     // what RFC 6455 says these fields look like on the wire (independent encoder)
     Frame ref;
     ref.fin = fin;
